@@ -283,6 +283,10 @@ def data_cases(tier, seed):
             x = [list(flat[2 * i:2 * i + 2]) for i in range(n)]
             for b in (1, 2):
                 yield {"fam": "data", "x": x, "score": "CUSUM", "b": b, "thr_scale": 0.1}
+    # three columns (aggregation over all columns)
+    for n in (6, 7):
+        for xs in itertools.product((0, 3), repeat=n):
+            yield {"fam": "data", "x": util.three_columns(xs), "score": "CUSUM" if n == 6 else "L2cost", "b": 2, "thr_scale": 0.1}
     # fitted on a shorter prefix, predicting the full series
     for n in (7, 8) if tier == "quick" else (7, 8, 9, 10):
         for xs in itertools.product((0, 3), repeat=n):
